@@ -389,7 +389,20 @@ def check_unmodified(ctx):
     n = 0
     for name, fi in ctx.repo.nmethods(PI, 'PublicInference').items():
         ctx.analysed(fi)
+        # locals that ARE the public dataset (plain aliases, also read by nested functions)
+        aliases = {a_.targets[0].id for a_ in ast.walk(fi.node) if isinstance(a_, ast.Assign) and len(a_.targets) == 1
+                   and isinstance(a_.targets[0], ast.Name) and U(a_.value) == 'self.public_data'}
         for s in ast.walk(fi.node):
+            if aliases and isinstance(s, (ast.Assign, ast.AugAssign)):
+                for t in (s.targets if isinstance(s, ast.Assign) else [s.target]):
+                    b_ = t
+                    while isinstance(b_, (ast.Subscript, ast.Attribute)):
+                        b_ = b_.value
+                    if isinstance(t, (ast.Subscript, ast.Attribute)) and isinstance(b_, ast.Name) and b_.id in aliases:
+                        n += 1
+                        ctx.ob('public-data-unmodified', fi, s, False,
+                               'store into the public dataset through its alias `%s`: `%s` (the caller\'s Dataset object is changed - its weights, and '
+                               'with them its data vector, are those of the last trial afterwards)' % (b_.id, U(t)))
             tgts = []
             if isinstance(s, ast.Assign):
                 tgts = s.targets
@@ -425,6 +438,19 @@ def check_weight_gradient(ctx, est):
     w = f.args.args[0].arg
     defs = {s.targets[0].id: s for s in ast.walk(f) if isinstance(s, ast.Assign) and len(s.targets) == 1 and isinstance(s.targets[0], ast.Name)}
     ds = [s for s in defs.values() if isinstance(s.value, ast.Call) and U(s.value.func) == 'Dataset']
+    if not ds:
+        # the wrapper may be built once in the enclosing method and only given the candidate weights inside the closure:
+        #   est = Dataset(P.df, P.domain)  ...  def loss_and_grad(w): est.weights = w
+        outer = [s_ for s_ in est.node.body if isinstance(s_, ast.Assign) and len(s_.targets) == 1 and isinstance(s_.targets[0], ast.Name)
+                 and isinstance(s_.value, ast.Call) and U(s_.value.func) == 'Dataset' and len(s_.value.args) == 2]
+        sets = [s_ for s_ in f.body if isinstance(s_, ast.Assign) and len(s_.targets) == 1 and isinstance(s_.targets[0], ast.Attribute)
+                and s_.targets[0].attr == 'weights' and isinstance(s_.targets[0].value, ast.Name) and U(s_.value) == w]
+        if len(outer) == 1 and len(sets) == 1 and sets[0].targets[0].value.id == outer[0].targets[0].id and f.body.index(sets[0]) == 0:
+            synth = ast.copy_location(ast.Assign(targets=[ast.Name(id=outer[0].targets[0].id, ctx=ast.Store())],
+                                                 value=ast.Call(func=outer[0].value.func, args=list(outer[0].value.args) + [ast.Name(id=w, ctx=ast.Load())], keywords=[])),
+                                      sets[0])
+            ast.fix_missing_locations(synth)
+            ds = [synth]
     if not ds:
         raise AnalysisError('PublicInference.estimate: the candidate marginals in `%s` are not computed from a Dataset of the public records '
                             '(another construction of the weighted marginals and of the gradient pull-back is neither confirmed nor refuted)' % f.name)
